@@ -47,6 +47,16 @@ def run(prop, tier, seed):
     json.dump(scen, open(sf, "w"))
     out, w = vlib.run_driver(drv, sf, tf, ["-workers", str(min(vlib.NCPU, 12)), "-stall", "120"], timeout=2400)
     traces = vlib.read_traces(tf)
+    # a driver process that died inside a schedule: run that schedule again on its own; the verdict is taken from a
+    # run that shows what the real code does (a death that repeats is reported with the process's last output)
+    for i, t in enumerate(traces):
+        if t.get("died"):
+            log("NOTE schedule %s: the driver process died (%s); running it again alone" % (t.get("sc"), (t.get("note") or "").strip().splitlines()[-1:] or "no output"))
+            sf1, tf1 = os.path.join(d, "one.json"), os.path.join(d, "one.ndjson")
+            json.dump([scen[i]], open(sf1, "w"))
+            vlib.run_driver(drv, sf1, tf1, ["-workers", "1", "-stall", "120"], timeout=600)
+            traces[i] = vlib.read_traces(tf1)[0]
+            v.cov["schedules_rerun_after_process_death"] = v.cov.get("schedules_rerun_after_process_death", 0) + 1
     dead = [t for t in traces if t.get("dead")]
     if dead:
         raise vlib.Machinery("driver could not run %d scenarios: %s" % (len(dead), dead[0].get("note")))
@@ -60,7 +70,9 @@ def run(prop, tier, seed):
         if i in acc:
             continue
         why = []
-        if e.get("res") != "plotted":
+        if e.get("res") == "died":
+            why.append("the process died while running this schedule, twice: %s" % (t.get("note") or "no output")[-700:])
+        elif e.get("res") != "plotted":
             why.append("the schedule does not end in a plotted space: %s" % e.get("err"))
         for k in ("sound", "complete", "equal"):
             if e.get(k) is False:
